@@ -368,6 +368,8 @@ def rules_of(repo, cls, file, chain=None):
     out = []
     for st in strip_doc(fn.body):
         txt = norm(ast.unparse(st))
+        if isinstance(st, ast.Pass):
+            continue
         if txt == "super().__attrs_post_init__()":
             base = rules_of(repo, None, None, chain[:-1]) if len(chain) > 1 else None
             if base is None:
